@@ -257,9 +257,9 @@ pub async fn run() {
         }
     } else {
         if ended_by_listener {
-            // recorded finding: a detach for a link whose attach is still waiting for the application's
-            // accept is taken for a detach of an unattached handle (flows and transfers that arrive in
-            // that window are tolerated, the detach is not)
+            // (a defect found here and repaired, ed87a93: a detach for a link whose attach was still waiting
+            // for the application's accept was taken for a detach of an unattached handle; the signature
+            // names that case should it come back)
             let unattached = frames.iter().filter(|f| f.code == wire::END).all(|f| wire::error_condition(f.perf.as_ref().unwrap().field(0)).as_deref() == Some("amqp:session:unattached-handle"));
             let sig = if unattached { "detach-pipelined-before-the-listener-accepted-the-link" } else { "" };
             sim::violation_sig("session-torn-down", sig, format!("a link that came and went before the application looked made the listener end the session: {:?}", frames.iter().filter(|f| f.code == wire::END).map(wire::describe_frame).collect::<Vec<_>>()));
